@@ -54,7 +54,37 @@ def gen_and_replay(ctx, cfg, kind, simulate=None, depth=None, stride=1):
         raise tlc.MachineryError("generator %s produced no behaviour" % cfg)
 
 
+def run_replay(ctx):
+    """./check C08 --replay PATH : re-execute the recorded case against the current tree"""
+    import json
+    from harness import c08trace
+    d = json.load(open(ctx.replay))
+    case = d.get("case") or {}
+    ctx.rule = "replay of one recorded case"
+    res = tlc.run("MemZone", "MemZoneMC_quick.cfg", workers=2, tag="c08rp")
+    ctx.add_tlc(res, "M:MemZoneMC_quick.cfg")
+    if "behaviour" in case:
+        rp = c08.Replay(case.get("seed", 0))
+        f, dr = rp.run(case["behaviour"])
+        ctx.case(key=("replay", "G"))
+        ctx.trace()
+        ctx.sample({"source": "replay", "behaviour": [dict((k, r[k]) for k in ("op", "m", "z", "a", "n", "raw", "en", "br")) for r in case["behaviour"]]})
+        if f:
+            x = f[0]
+            ctx.fail("C08:%s" % x[1], "replayed behaviour: %s at step %s map %s zone %s addr %s: got %s expected %s"
+                     % (x[1], x[0], x[2], x[3], x[4], str(x[6])[:200], str(x[7])[:200]), case)
+    elif "trace" in case:
+        # a recorded history: regenerate it from its seed on the current tree and validate it again
+        t = case["trace"]
+        ctx.note("replay_note", "recorded histories are regenerated from their seed (trace id %s)" % t.get("t"))
+        c08trace.run(ctx)
+    else:
+        raise tlc.MachineryError("replay file has no behaviour/trace")
+
+
 def run(ctx):
+    if ctx.replay:
+        return run_replay(ctx)
     quick = ctx.tier == "quick"
     ctx.rule = ("behaviours of specs/MemZone.tla replayed on real MemoryMap objects; a behaviour is non-trivial "
                 "when at least one write takes an addtomap branch other than a plain insertion (it overlaps or "
